@@ -180,24 +180,79 @@ def check_mutex_discipline(chk):
                 from ..astdb import AnalysisBroken
                 raise AnalysisBroken('%s@%s: %s' % (name, cfg, e))
             bad = None
+            nets = set()
             for p in paths:
                 if p.aborted:
                     continue
                 held = 0
+                seq = []
                 for ev, args, loc in p.events:
                     if ev == 'lock':
                         held += 1
+                        seq.append(1)
                     elif ev == 'unlock':
                         held -= 1
+                        seq.append(-1)
                         if held < 0 and bad is None:
                             bad = 'releases the memory mutex without holding it at %s (path %s)' % (loc, p.cond_text()[:100])
+                nets.add(tuple(seq))
                 if held != 0 and bad is None:
                     bad = 'returns with the memory mutex %s (path %s)' % ('still held' if held > 0 else 'over-released', p.cond_text()[:100])
+            if nets in ({(1,)}, {(-1,)}):
+                # a wrapper: on every path exactly one acquire (or exactly one release) and nothing else - its callers are summarised
+                # with the wrapper's body inlined, so the balance is decided there
+                chk.note('%s@%s is a %s wrapper of the memory mutex' % (name, cfg, 'lock' if nets == {(1,)} else 'unlock'))
+                continue
             n += 1
             chk.expect(bad is None, 'R18.6', '%s@%s:mutex-balanced' % (name, cfg),
                        '%s (%s configuration) %s: the same mutex protects memory.grow / memory.size of a shared memory, so a concurrent grow '
                        'is no longer exclusive (duplicate old sizes, lost updates)' % (name, 'mutex-based atomics' if cfg == 'be' else 'default', bad),
                        'runtime/%s@%s:mutex' % (name, cfg))
+    # the futex operations take the same mutex: wait (finite / infinite timeout) and notify - on a memory that has never been waited
+    # on (no futex map yet) and on one with a map
+    from . import c17
+    from .. import pe as _pe
+    ftu = c17.futex_tu(chk)
+    cases = [('wasmMemoryAtomicWait[infinite]', lambda: c17.wait_paths(ftu, True)), ('wasmMemoryAtomicWait[timeout]', lambda: c17.wait_paths(ftu, False))]
+    for fut_label, fut in (('no-futex-map', 0), ('futex-map', unk('futex-map'))):
+        def notify_paths(fut=fut):
+            state = {}
+            it = _pe.Interp([ftu], c17.futex_leafs(state), max_paths=2000)
+            it.cur_tu = ftu
+            it.loop_abort = True        # the walk over an unknown waiter list is cut (C17 decides it on concrete lists)
+
+            def setup():
+                state.clear()
+                state.update(allocs=0, waits=0)
+                mem = {'v': runtime.memory_record(it, shared=True)}
+                dict.__setitem__(mem['v'], 'futex', fut)
+                return ('wasmMemoryAtomicNotify', [Ptr(mem, 'v'), unk('address', 'unsigned int'), unk('count', 'unsigned int')], {'mem': mem['v'], 'st': state})
+            return it.explore(setup)
+        cases.append(('wasmMemoryAtomicNotify[%s]' % fut_label, notify_paths))
+    for label, get in cases:
+        try:
+            paths = get()
+        except _pe.PEError as e:
+            from ..astdb import AnalysisBroken
+            raise AnalysisBroken('%s: %s' % (label, e))
+        bad = None
+        for p in paths:
+            if p.aborted:
+                continue
+            held = 0
+            for ev, args, loc in p.events:
+                if ev == 'lock':
+                    held += 1
+                elif ev == 'unlock':
+                    held -= 1
+                    if held < 0 and bad is None:
+                        bad = 'releases the memory mutex without holding it at %s (path %s)' % (loc, p.cond_text()[:100])
+            if held != 0 and bad is None:
+                bad = 'returns with the memory mutex %s (path %s)' % ('still held' if held > 0 else 'over-released', p.cond_text()[:100])
+        n += 1
+        chk.expect(bad is None, 'R18.6', '%s:mutex-balanced' % label,
+                   '%s %s: the same mutex protects memory.grow / memory.size of a shared memory, so a concurrent grow is no longer exclusive '
+                   '(duplicate old sizes, lost updates)' % (label, bad), 'futex/%s:mutex' % label.split('[')[0])
     chk.require(n >= 20, 'only %d runtime functions take the memory mutex' % n)
 
 
